@@ -14,6 +14,7 @@ import sys
 import tempfile
 
 VERIF = os.path.dirname(os.path.dirname(os.path.abspath(__file__)))
+REPO = os.environ.get("VERIF_REPO", "/repo")  # vp run --with-repo: a snapshot of the repository
 ENV = dict(os.environ, GOFLAGS="-mod=mod", GOPROXY="off", GOSUMDB="off", GOTOOLCHAIN="local")
 
 
@@ -88,13 +89,13 @@ def confirm(d):
 def detect(d, tier, props):
     meta = load_meta(d)
     props = props or [meta.get("property")]
-    rc, out = sh(["git", "-C", "/repo", "status", "--porcelain"])
+    rc, out = sh(["git", "-C", REPO, "status", "--porcelain"])
     if out.strip():
-        print("refusing: /repo working tree is not clean")
+        print("refusing: %s working tree is not clean" % REPO)
         return False
-    rc, out = sh(["git", "-C", "/repo", "apply", os.path.join(d, "patch.diff")])
+    rc, out = sh(["git", "-C", REPO, "apply", os.path.join(d, "patch.diff")])
     if rc != 0:
-        print("patch does not apply to /repo:", out)
+        print("patch does not apply to %s:" % REPO, out)
         return False
     results = {}
     try:
@@ -105,7 +106,7 @@ def detect(d, tier, props):
             results[p] = {"exit": rc, "violations": len(vio), "first_detail": det[0][:300] if det else ""}
             print("%s: check %s (%s) exit=%d violations=%d %s" % (os.path.basename(d), p, tier, rc, len(vio), det[0][:200] if det else ""))
     finally:
-        sh(["git", "-C", "/repo", "checkout", "--", "."])
+        sh(["git", "-C", REPO, "checkout", "--", "."])
         # replay files produced against the patched tree are not evidence of anything on the real tree
         for p in props:
             shutil.rmtree(os.path.join(VERIF, "replays", p), ignore_errors=True)
